@@ -4,6 +4,11 @@
 From CsProto Require Import Prelude Varint ZigZag Codec RefWire WireStmts Lazy Pool PoolSpec.
 From CsProto Require Import LazyProofs PoolBase PoolSched.
 
+(* Pool.v declares these inside its Section, where they do not survive *)
+#[local] Arguments POk {A} a ps.
+#[local] Arguments PErr {A} ps.
+#[local] Arguments PPanic {A}.
+
 Section Proofs.
 Variable D : ldef.
 Variable truncs : pobj -> list (nat * bool).
@@ -351,6 +356,16 @@ Proof.
   destruct (decode_into (flat_tags d) (fresh_data d) b); cbn [of_lerr is_crash orb]; try reflexivity. contradiction.
 Qed.
 
+Lemma nra_unfold r t inner k s : nested_results_access r t inner k s =
+  match nested_results r t with
+  | inr e => NErr e
+  | inl outs =>
+      if existsb is_crash outs then NPanic
+      else if existsb is_fail outs then NErr EOther
+      else NList (map (fun o => helper_access (lout_res o) inner k s) outs)
+  end.
+Proof. reflexivity. Qed.
+
 Lemma p_nested_obs_spec o t inner kd slice picks ps r : PI ps -> wf o -> presents o r ->
   match p_nested_obs o t inner kd slice picks ps with
   | PPanic | PErr _ => False
@@ -358,7 +373,7 @@ Lemma p_nested_obs_spec o t inner kd slice picks ps r : PI ps -> wf o -> present
        out = nested_results_access (Some r) t inner kd slice
   end.
 Proof.
-  intros Hps Hwf Hpr. unfold Pool.p_nested_obs, Pool.p_nested_results, nested_results_access.
+  intros Hps Hwf Hpr. unfold Pool.p_nested_obs, Pool.p_nested_results. rewrite nra_unfold.
   rewrite nested_results_slices, (nested_slices_sim _ _ t Hpr).
   destruct (nested_slices r t) as [bs|e].
   2:{ split; [exact Hps|]. split; [exact Hwf|]. split; [|reflexivity]. exists (oclosers o). destruct o; reflexivity. }
